@@ -308,6 +308,9 @@ pub fn run(cfg: &Cfg, sink: &Arc<Sink>) -> Report {
     if !kit_self_test(sink) {
         return report;
     }
+    if cfg.tier == Tier::Thorough {
+        report.cap("thorough: Markdown sequences of length ≤3 (rich alphabet), every other grammar ≤4");
+    }
     let (len_main, len_all) = match cfg.tier {
         Tier::Quick => (3, 2),
         Tier::Thorough => (4, 3),
@@ -315,6 +318,9 @@ pub fn run(cfg: &Cfg, sink: &Arc<Sink>) -> Report {
     for kit in KITS {
         let alphabet = langkit::alphabet(kit, cfg.tier == Tier::Thorough);
         let n = alphabet.len();
+        // Markdown is parsed twice (block structure, then every HTML block) and has seven comment
+        // forms: its sequences stay at length 3 in the thorough tier too (over the rich alphabet).
+        let len_main = if kit.blank_between { 3 } else { len_main };
         report.phase(engine::explore(
             &format!("{} ({})", kit.grammar, kit.files[0]),
             &format!("all segment sequences of length ≤{len_main} over {n} segments, nesting ≤{MAX_NESTING}, LF+CRLF"),
